@@ -1,4 +1,5 @@
 mod common;
+mod c11;
 mod c14;
 mod store;
 mod c01;
@@ -9,6 +10,7 @@ fn main() {
     match args.prop.as_str() {
         "C14" => c14::run(&args),
         "C01" => c01::run(&args),
+        "C11" => c11::run(&args),
         x => {
             eprintln!("unknown property {}", x);
             std::process::exit(2);
